@@ -385,6 +385,20 @@ Definition judge_C05 (cfg : config) : judge_t := fun m o ob pr =>
           else (None, [], [])
       | None => (None, [], [])
       end
+  | ODevicePoll auth dev =>
+      match cred m dev with
+      | Some (i, c) =>
+          if String.eqb (o_err ob) "" && existsb (fun k => ckind_eqb k KRefresh) (o_minted ob) then
+            if negb (match cf_refresh_scopes cfg with [] => true | sc => args_has_one_of (ci_scopes c) sc end)
+            then (Some "refresh_token_issued_without_a_refresh_scope", [], [])
+            else match auth with
+                 | Some a => if client_has_grant m a "refresh_token" then (None, [], [])
+                             else (Some "device_flow_issued_refresh_token_to_client_without_refresh_grant", [], [])
+                 | None => (None, [], [])
+                 end
+          else (None, [], [])
+      | None => (None, [], [])
+      end
   | _ => (None, [], [])
   end.
 
